@@ -87,11 +87,21 @@ var endsWithPercentEncodingPrefixPattern = regexp.MustCompile(
 // or control characters.
 var containsWhitespaceOrControlPattern = regexp.MustCompile(`[[:space:]]|[[:cntrl:]]`)
 
+// numericCharRefsTerminatedPattern matches strings in which every numeric HTML character
+// reference is written out in full: "&#" followed by one to seven decimal digits, or by "x" and
+// one to six hexadecimal digits, and a semicolon.
+//
+// HTML parsers also decode numeric character references that lack the semicolon, which
+// html.UnescapeString does not always do ("&#9j" is a TAB followed by "j" for a browser).
+var numericCharRefsTerminatedPattern = regexp.MustCompile(
+	`^(?:[^&]|&+[^#&]|&*&#(?:[0-9]{1,7}|[xX][0-9a-fA-F]{1,6});)*&*$`)
+
 // decodeURLPrefix returns the given prefix after it has been HTML-unescaped.
 // It returns an error if the prefix:
 //   - ends in an incomplete HTML character reference before HTML-unescaping,
-//   - ends in an incomplete percent-encoding character triplet after HTML-unescaping, or
-//   - contains whitespace before or after HTML-unescaping.
+//   - ends in an incomplete percent-encoding character triplet after HTML-unescaping,
+//   - contains whitespace before or after HTML-unescaping, or
+//   - contains a numeric HTML character reference that is not terminated by a semicolon.
 func decodeURLPrefix(prefix string) (string, error) {
 	if containsWhitespaceOrControlPattern.MatchString(prefix) {
 		return "", fmt.Errorf("URL prefix %q contains whitespace or control characters", prefix)
@@ -107,6 +117,9 @@ func decodeURLPrefix(prefix string) (string, error) {
 	}
 	if endsWithPercentEncodingPrefixPattern.MatchString(decoded) {
 		return "", fmt.Errorf("URL prefix %q ends with an incomplete percent-encoding character triplet", prefix)
+	}
+	if !numericCharRefsTerminatedPattern.MatchString(prefix) {
+		return "", fmt.Errorf("URL prefix %q contains a numeric HTML character reference that is not terminated by a semicolon", prefix)
 	}
 	return decoded, nil
 }
